@@ -1,7 +1,7 @@
 (* C01 for every history of run-time modifications of the superposition (SuperposModel.v, R instance). *)
 From Coq Require Import ZArith List Bool Reals Lra Lia.
 From Coquelicot Require Import Coquelicot.
-From CV Require Import Base.Num Base.RNum C18.ValueModel C06.RestraintModel C01.ForceModel C01.ForceProofs C01.PolarProofs C01.SuperposModel.
+From CV Require Import Base.Num Base.RNum C18.ValueModel C06.RestraintModel C01.ForceModel C01.ForceProofs C01.PolarProofs C01.HistProofs C01.SuperposModel.
 Import ListNotations.
 Local Open Scope R_scope.
 
@@ -10,8 +10,8 @@ Notation SCVC := (@scvc R).
 Notation EVT := (@event R).
 
 (* ---- the flags computed by colvar::init survive every event unchanged (they go stale) ---- *)
-Definition vflags (st : VST) : R * bool * bool * bool * R :=
-  (vs_width st, vs_linear st, vs_homog st, vs_periodic st, vs_period st).
+(* width, linear and homogeneous: modifycvcs refreshes the periodicity only *)
+Definition vflags (st : VST) : R * bool * bool := (vs_width st, vs_linear st, vs_homog st).
 
 Lemma update_nth_map {A B : Type} (g : A -> B) (f : A -> A) n (l : list A) :
   (forall x, g (f x) = g x) -> map g (update_nth n f l) = map g l.
@@ -20,14 +20,14 @@ Proof.
   destruct n as [|m]; cbn [update_nth map]; [rewrite H; reflexivity|rewrite IH; reflexivity].
 Qed.
 
-Lemma apply_event_flags (e : EVT) sts : map vflags (apply_event e sts) = map vflags sts.
+Lemma apply_event_flags (e : EVT) sts : map vflags (apply_event Rops e sts) = map vflags sts.
 Proof.
   destruct e as [v i coeff ex|v flags]; cbn [apply_event]; apply update_nth_map; intros st.
   - reflexivity.
   - destruct (Nat.eqb (length flags) (length (vs_comps st)) && existsb (fun b => b) flags); reflexivity.
 Qed.
 
-Theorem history_keeps_flags (h : list EVT) sts : map vflags (run_history h sts) = map vflags sts.
+Theorem history_keeps_flags (h : list EVT) sts : map vflags (run_history Rops h sts) = map vflags sts.
 Proof.
   unfold run_history. revert sts. induction h as [|e r IH]; intros sts; [reflexivity|].
   cbn [fold_left]. rewrite IH. apply apply_event_flags.
@@ -37,11 +37,11 @@ Qed.
 Theorem history_forces_are_minus_gradient cell (descr : list (R * list SCVC)) bs (h : list EVT) (s : SYS) :
   let cf := effective cell (state_after Rops descr h) bs in
   (forall v c, In v (cf_vars cf) -> In c (cv_cvcs v) -> cvc_guard_w (cf_cell cf) c s) ->
-  (forall b, In b (cf_biases cf) -> bias_guard b (cf_vars cf) (var_values Rops PI cf s)) ->
+  (forall b, In b (cf_biases cf) -> bias_guard_w b (cf_vars cf) (var_values Rops PI cf s)) ->
   forall a k, (a < length s)%nat ->
     is_derive (fun t => h_energy Rops PI cell descr bs h (set_coord s a k t)) (coord Rops s a k)
               (- vget k (nth a (h_forces Rops PI cell descr bs h s) (vzero Rops))).
-Proof. intros cf Hc Hb a k Ha. unfold h_energy, h_forces. apply forces_are_minus_gradient_w; assumption. Qed.
+Proof. intros cf Hc Hb a k Ha. unfold h_energy, h_forces. apply forces_are_minus_gradient_ww; assumption. Qed.
 
 (* ---- a history that makes the flags stale, and for which every premise holds ----
    one variable, one distance component read with componentCoeff 1, componentExp 1 (linear, homogeneous); then
@@ -49,37 +49,27 @@ Proof. intros cf Hc Hb a k Ha. unfold h_energy, h_forces. apply forces_are_minus
 Definition ex_descr : list (R * list SCVC) := [(1, [mkScvc (mkCvc 1 1%Z (KDistance true) [ex_g1; ex_g2]) 0 true])].
 Definition ex_hist : list EVT := [EvModify 0 0 (Some 2) (Some 2%Z)].
 
-Lemma ex_init_flags : map vflags (map (init_var Rops) ex_descr) = [(1, true, true, false, 0)].
+Lemma ex_init_flags : map vflags (map (init_var Rops) ex_descr) = [(1, true, true)].
 Proof.
-  cbn [map ex_descr init_var fst snd vflags vs_width vs_linear vs_homog vs_periodic vs_period].
   assert (Hl : init_linear (T := R) [mkScvc (mkCvc 1 1%Z (KDistance true) [ex_g1; ex_g2]) 0 true] = true) by reflexivity.
   assert (Hu : unit_coeff Rops 1 = true).
   { unfold unit_coeff, nabs. cbn [nltb neqb n0 n1 nneg Rops].
     replace (Rltb 1 0) with false by (symmetry; apply Rltb_false; lra). apply Reqb_true. reflexivity. }
   assert (Hh : init_homog Rops [mkScvc (mkCvc 1 1%Z (KDistance true) [ex_g1; ex_g2]) 0 true] = true).
   { unfold init_homog. rewrite Hl. cbn [forallb sc_cvc c_coeff andb]. rewrite Hu. reflexivity. }
-  assert (Hp : init_periodic Rops [mkScvc (mkCvc 1 1%Z (KDistance true) [ex_g1; ex_g2]) 0 true] = false).
-  { unfold init_periodic. rewrite Hh. unfold comp_periodic. cbn [sc_period neqb n0 Rops andb].
-    replace (Reqb' 0 0) with true by (symmetry; apply Reqb_true; reflexivity). reflexivity. }
-  unfold vflags, init_var. cbn [fst snd vs_width vs_linear vs_homog vs_periodic vs_period].
-  unfold init_period. rewrite Hl, Hh, Hp. reflexivity.
+  cbn [map ex_descr]. unfold vflags, init_var. cbn [fst snd vs_width vs_linear vs_homog]. rewrite Hl, Hh. reflexivity.
+Qed.
+
+(* the live components after the history are not even linear: the refreshed periodicity is "not periodic" *)
+Lemma ex_refreshed : init_periodic Rops [mkScvc (mkCvc 2 2%Z (KDistance true) [ex_g1; ex_g2]) 0 true] = false /\
+                     init_period Rops [mkScvc (mkCvc 2 2%Z (KDistance true) [ex_g1; ex_g2]) 0 true] = 0.
+Proof.
+  assert (Hp : init_periodic Rops [mkScvc (mkCvc 2 2%Z (KDistance true) [ex_g1; ex_g2]) 0 true] = false) by reflexivity.
+  split; [exact Hp|]. unfold init_period. rewrite Hp. reflexivity.
 Qed.
 
 Lemma ex_state : effective None (state_after Rops ex_descr ex_hist) (cf_biases ex_cf) = ex_cf.
-Proof.
-  pose proof ex_init_flags as Hf.
-  unfold state_after, ex_hist, run_history. cbn [fold_left apply_event].
-  cbn [map ex_descr] in Hf |- *. cbn [update_nth].
-  set (st0 := init_var Rops (1, [mkScvc (mkCvc 1 1%Z (KDistance true) [ex_g1; ex_g2]) 0 true])) in *.
-  assert (Hv : vflags st0 = (1, true, true, false, 0)) by (cbn [map] in Hf; congruence).
-  pose proof (f_equal (fun p : R * bool * bool * bool * R => fst (fst (fst (fst p)))) Hv) as Hw.
-  pose proof (f_equal (fun p : R * bool * bool * bool * R => snd (fst p)) Hv) as Hp.
-  pose proof (f_equal (fun p : R * bool * bool * bool * R => snd p) Hv) as Hpe.
-  cbn [vflags fst snd] in Hw, Hp, Hpe.
-  unfold effective, ex_cf. f_equal. cbn [map]. f_equal.
-  unfold effective_var, with_comps. cbn [vs_width vs_periodic vs_period vs_comps].
-  rewrite Hw, Hp, Hpe. reflexivity.
-Qed.
+Proof. reflexivity. Qed.
 
 (* after the history the variable still carries f_cv_linear although its exponent is 2 *)
 Lemma ex_stale : map (@vs_linear R) (state_after Rops ex_descr ex_hist) = [true] /\
@@ -87,9 +77,9 @@ Lemma ex_stale : map (@vs_linear R) (state_after Rops ex_descr ex_hist) = [true]
 Proof.
   split.
   - pose proof (history_keeps_flags ex_hist (map (init_var Rops) ex_descr)) as H. rewrite ex_init_flags in H.
-    unfold state_after. destruct (run_history ex_hist (map (init_var Rops) ex_descr)) as [|st [|st2 r]]; try discriminate H.
-    assert (Hv : vflags st = (1, true, true, false, 0)) by (cbn [map] in H; congruence).
-    pose proof (f_equal (fun p : R * bool * bool * bool * R => snd (fst (fst (fst p)))) Hv) as Hl.
+    unfold state_after. destruct (run_history Rops ex_hist (map (init_var Rops) ex_descr)) as [|st [|st2 r]]; try discriminate H.
+    assert (Hv : vflags st = (1, true, true)) by (cbn [map] in H; congruence).
+    pose proof (f_equal (fun p : R * bool * bool => snd (fst p)) Hv) as Hl.
     cbn [vflags fst snd] in Hl. cbn [map]. rewrite Hl. reflexivity.
   - reflexivity.
 Qed.
@@ -97,8 +87,8 @@ Qed.
 Lemma ex_hist_guards :
   let cf := effective None (state_after Rops ex_descr ex_hist) (cf_biases ex_cf) in
   (forall v c, In v (cf_vars cf) -> In c (cv_cvcs v) -> cvc_guard_w (cf_cell cf) c ex_sys) /\
-  (forall b, In b (cf_biases cf) -> bias_guard b (cf_vars cf) (var_values Rops PI cf ex_sys)).
-Proof. cbv zeta. rewrite ex_state. exact ex_guards_w. Qed.
+  (forall b, In b (cf_biases cf) -> bias_guard_w b (cf_vars cf) (var_values Rops PI cf ex_sys)).
+Proof. cbv zeta. rewrite ex_state. exact ex_guards_ww. Qed.
 
 (* ---- a force path that trusted the stale flag would be wrong ----
    the linear branch f * coeff for a variable flagged linear, against the branch that reads the exponent: with
